@@ -140,6 +140,8 @@ func mkXPubs() []string {
 	return out
 }
 
+var coinText = []string{"default", "skycoin/8000", "bitcoin/0"}
+
 // the text of a seed id for a wallet type
 func seedText(typ, id int) string {
 	if typ == 3 {
@@ -169,13 +171,14 @@ type Op struct {
 	Chg   bool // NewAddr: on the change chain (wallet.OptionChange)
 	Ea    int  // Scan: index+1 of the last scanned external address with activity (0 = none)
 	Ca    int  // Scan: same on the change chain
+	Coin  int  // Create: Options.Bip44Coin, 0 = not given, 1 = skycoin/8000 (the service default), 2 = bitcoin/0
 }
 
 func (o Op) Coq() string {
 	n := Str(o.Name)
 	switch o.Kind {
 	case "Create":
-		return fmt.Sprintf("(Create %s %d %d %d %s %d %d %s %s)", n, o.Typ, o.Seed, o.Label, B(o.Enc), o.Pw, o.N, B(o.Temp), B(o.Dfail))
+		return fmt.Sprintf("(Create %s %d %d %d %d %s %d %d %s %s)", n, o.Typ, o.Seed, o.Coin, o.Label, B(o.Enc), o.Pw, o.N, B(o.Temp), B(o.Dfail))
 	case "NewAddr":
 		return fmt.Sprintf("(NewAddr %s %d %d %s %s)", n, o.Pw, o.N, B(o.Chg), B(o.Dfail))
 	case "Scan":
@@ -202,7 +205,7 @@ func (o Op) Text() string {
 	s := o.Kind + "(" + o.Name
 	switch o.Kind {
 	case "Create":
-		s += fmt.Sprintf(",type=%s,seed=%q,label=%q,encrypt=%v,pw=%q,n=%d,temp=%v", types[o.Typ], seedText(o.Typ, o.Seed), labels[o.Label], o.Enc, pws[o.Pw], o.N, o.Temp)
+		s += fmt.Sprintf(",type=%s,seed=%q,bip44coin=%s,label=%q,encrypt=%v,pw=%q,n=%d,temp=%v", types[o.Typ], seedText(o.Typ, o.Seed), coinText[o.Coin], labels[o.Label], o.Enc, pws[o.Pw], o.N, o.Temp)
 	case "NewAddr":
 		s += fmt.Sprintf(",pw=%q,n=%d,change-chain=%v", pws[o.Pw], o.N, o.Chg)
 	case "Scan":
@@ -235,14 +238,15 @@ type AW struct {
 	Pw    int
 	N     int
 	C     int
+	Coin  int
 	Temp  bool
 }
 
 func (a AW) Coq() string {
-	return fmt.Sprintf("(mkW %s %s %s %s %s %s %s %s %s)", Str(a.Name), ZI(int64(a.Typ)), ZI(int64(a.Seed)), ZI(int64(a.Label)), B(a.Enc), ZI(int64(a.Pw)), ZI(int64(a.N)), ZI(int64(a.C)), B(a.Temp))
+	return fmt.Sprintf("(mkW %s %s %s %s %s %s %s %s %s %s)", Str(a.Name), ZI(int64(a.Typ)), ZI(int64(a.Seed)), ZI(int64(a.Label)), B(a.Enc), ZI(int64(a.Pw)), ZI(int64(a.N)), ZI(int64(a.C)), ZI(int64(a.Coin)), B(a.Temp))
 }
 func (a AW) Text() string {
-	return fmt.Sprintf("%s{type=%d seed=%d label=%d enc=%v pw=%d n=%d change=%d temp=%v}", a.Name, a.Typ, a.Seed, a.Label, a.Enc, a.Pw, a.N, a.C, a.Temp)
+	return fmt.Sprintf("%s{type=%d seed=%d coin=%d label=%d enc=%v pw=%d n=%d change=%d temp=%v}", a.Name, a.Typ, a.Seed, a.Coin, a.Label, a.Enc, a.Pw, a.N, a.C, a.Temp)
 }
 
 type abstractor struct {
@@ -273,6 +277,17 @@ func (ab *abstractor) wallet(w wallet.Wallet) AW {
 		} else {
 			a.Seed = -1
 			ab.bad = append(ab.bad, "unknown fingerprint "+fp)
+		}
+	}
+	if a.Typ == 2 { // the coin type of the derivation path, as the wallet records it
+		a.Coin = -1
+		if c := w.Bip44Coin(); c != nil {
+			switch *c {
+			case bip44.CoinTypeSkycoin:
+				a.Coin = 1
+			case bip44.CoinTypeBitcoin:
+				a.Coin = 2
+			}
 		}
 	}
 	if a.Typ == 2 { // per-chain entry counts of account 0
@@ -403,6 +418,14 @@ func apply(s *wallet.Service, dir string, o Op, ab *abstractor, genN *int) (Op, 
 			opts.Seed = ""
 			opts.XPub = xpubs[o.Seed]
 		}
+		switch o.Coin {
+		case 1:
+			c := bip44.CoinTypeSkycoin
+			opts.Bip44Coin = &c
+		case 2:
+			c := bip44.CoinTypeBitcoin
+			opts.Bip44Coin = &c
+		}
 		w, err = s.CreateWallet(o.Name, opts)
 		if err == nil {
 			o.Name = w.Filename()
@@ -498,6 +521,9 @@ func genOp(r *Rng, mem []AW, everCreated []string) Op {
 			o.Typ = 1
 		case k < 50:
 			o.Typ = 2
+			if r.Chance(40) {
+				o.Coin = 1 + r.Intn(2)
+			}
 		case k < 62:
 			o.Typ = 3
 			o.Seed = 1 + r.Intn(len(xpubs)-1)
@@ -563,6 +589,15 @@ func genOp(r *Rng, mem []AW, everCreated []string) Op {
 		return Op{Kind: "Decrypt", Name: n, Pw: pwFor(n), Dfail: dfail}
 	case k < 80:
 		n := pickName()
+		var rec []string // encrypted wallets of a recoverable type
+		for _, w := range mem {
+			if w.Enc && (w.Typ == 0 || w.Typ == 2) {
+				rec = append(rec, w.Name)
+			}
+		}
+		if len(rec) > 0 && r.Chance(70) {
+			n = rec[r.Intn(len(rec))]
+		}
 		o := Op{Kind: "Recover", Name: n, Seed: r.Intn(len(seeds)), Pw: r.Intn(len(pws)), Dfail: dfail}
 		if w := find(n); w != nil && r.Chance(75) {
 			o.Seed = w.Seed
@@ -626,6 +661,29 @@ func run(args []string) error {
 			{Kind: "Create", Name: "c.wlt", Typ: 0, Seed: 2, Label: 3, N: 1},
 		},
 	}
+
+	fixed = append(fixed,
+		[]Op{ // recover an encrypted bip44 wallet with a non-default coin, then create the same seed with the default coin
+			{Kind: "Create", Name: "a.wlt", Typ: 2, Seed: 1, Coin: 2, Label: 1, Enc: true, Pw: 1, N: 2},
+			{Kind: "Recover", Name: "a.wlt", Seed: 2, Pw: 2}, // wrong seed
+			{Kind: "Recover", Name: "a.wlt", Seed: 1, Pw: 2}, // right seed, new password
+			{Kind: "Create", Name: "b.wlt", Typ: 2, Seed: 1, Label: 2, N: 1},
+			{Kind: "Create", Name: "c.wlt", Typ: 2, Seed: 1, Coin: 2, Label: 2, N: 1},
+			{Kind: "Recover", Name: "b.wlt", Seed: 1, Pw: 0}, // not encrypted
+		},
+		[]Op{ // recover without a new password (wallet ends unencrypted), default and explicit coins, deterministic too
+			{Kind: "Create", Name: "a.wlt", Typ: 2, Seed: 3, Coin: 1, Label: 1, Enc: true, Pw: 1, N: 1},
+			{Kind: "NewAddr", Name: "a.wlt", N: 2, Chg: true},
+			{Kind: "Recover", Name: "a.wlt", Seed: 3, Pw: 0},
+			{Kind: "Create", Name: "b.wlt", Typ: 2, Seed: 3, Coin: 2, Label: 2, Enc: true, Pw: 2, N: 1},
+			{Kind: "Recover", Name: "b.wlt", Seed: 3, Pw: 0, Dfail: true},
+			{Kind: "Recover", Name: "b.wlt", Seed: 3, Pw: 3},
+			{Kind: "Create", Name: "c.wlt", Typ: 2, Seed: 3, Label: 2, N: 1},
+			{Kind: "Create", Name: "d.wlt", Typ: 0, Seed: 3, Label: 2, Enc: true, Pw: 1, N: 3},
+			{Kind: "Recover", Name: "d.wlt", Seed: 3, Pw: 1},
+			{Kind: "Unload", Name: "b.wlt"},
+			{Kind: "Create", Name: "c.wlt", Typ: 2, Seed: 3, Coin: 2, Label: 3, N: 1},
+		})
 
 	for si := 0; si < nseq+len(fixed); si++ {
 		dir := filepath.Join(root, fmt.Sprintf("s%05d", si))
@@ -723,7 +781,7 @@ func run(args []string) error {
 					fpSeen := map[string]string{}
 					for _, a := range memView {
 						if a.Typ != 1 {
-							key := fmt.Sprintf("%d/%d", a.Typ, a.Seed)
+							key := fmt.Sprintf("%d/%d/%d", a.Typ, a.Seed, a.Coin)
 							if o, ok := fpSeen[key]; ok {
 								why = "wallets " + o + " and " + a.Name + " in memory share a fingerprint"
 							}
